@@ -469,6 +469,82 @@ def rule_i9(repo):
         res.add(i.key, i.ok, i.detail, i.loc)
     return res
 
+def rule_i10(repo):
+    """Substitution replaces every schematic variable whose *name* the instantiation mentions.  Each of them has its own
+    type annotation, and the type instantiation is inferred by matching that annotation with the type of the instance
+    (`v.T.match_incr(inst[v.name].get_type(), ..)`).  The matching therefore has to run over the schematic variables of the
+    term themselves - everything `get_svars()` lists, possibly filtered - and not over a table that keeps one of them per
+    name: with ?x :: ?'a and ?x :: ?'b in one term only one annotation would be matched, both occurrences replaced, and the
+    result is ill-typed."""
+    res = RuleResult('C03.I10', 'the types of all schematic variables that a substitution replaces are matched, not one per name', floor=4)
+    from ..flow import flow_of
+
+    def all_of_them(e, target):
+        """e lists every schematic variable: get_svars() itself, re-packed, sorted or filtered"""
+        if isinstance(e, ast.Call) and call_attr(e) in ('get_svars',):
+            return True
+        if isinstance(e, ast.Call) and isinstance(e.func, ast.Name) and e.func.id in ('list', 'tuple', 'sorted', 'reversed', 'set', 'frozenset') and e.args:
+            return all_of_them(e.args[0], target)
+        if isinstance(e, (ast.ListComp, ast.GeneratorExp, ast.SetComp)) and len(e.generators) == 1 and isinstance(e.elt, ast.Name) and \
+                isinstance(e.generators[0].target, ast.Name) and e.elt.id == e.generators[0].target.id:
+            return all_of_them(e.generators[0].iter, target)
+        if isinstance(e, ast.BinOp) and isinstance(e.op, ast.Add):
+            return all_of_them(e.left, target) or all_of_them(e.right, target)
+        return False
+
+    def by_name(e):
+        """a table with one entry per name: {v.name: v for v in ..}, or what is read out of one"""
+        for n in ast.walk(e):
+            if isinstance(n, ast.DictComp) and isinstance(n.key, ast.Attribute) and n.key.attr == 'name':
+                return n
+        return None
+    for m in repo.source_modules():
+        for f in m.all_funcs:
+            sites = []
+            for c in ast.walk(f.node):
+                if isinstance(c, ast.Call) and call_attr(c) == 'match_incr' and len(c.args) == 2:
+                    sites.append(c)
+            if not sites:
+                continue
+            flow = flow_of(f.node)
+            for c in sites:
+                recv = flow.inline(c.func.value)
+                if not (isinstance(recv, ast.Attribute) and recv.attr == 'T'):
+                    continue
+                subj = recv.value
+                # the other side is the type of what the instantiation holds under the subject's name (or under a loop key)
+                other = flow.inline(c.args[0])
+                from_inst = any(isinstance(s_, ast.Subscript) and isinstance(s_.value, ast.Name) and s_.value.id.startswith('inst') for s_ in ast.walk(other)) or \
+                    any(isinstance(s_, ast.Name) and any(k == 'elem' and isinstance(r, ast.Call) and call_attr(r) == 'items' and
+                                                        src(r.func.value, 20).startswith('inst') for k, r in flow.defs.get(s_.id, []))
+                        for s_ in ast.walk(other))
+                if not from_inst:
+                    continue
+                verdict, why = None, ''
+                if isinstance(subj, ast.Name):
+                    loops = [l for l in ast.walk(f.node) if isinstance(l, ast.For) and is_name(l.target, subj.id) and
+                             any(x is c for b in l.body for x in ast.walk(b))]
+                    if loops:
+                        # the innermost loop over that name around the call
+                        it = flow.inline(min(loops, key=lambda l: (l.end_lineno - l.lineno)).iter)
+                        if all_of_them(it, subj.id):
+                            verdict = True
+                        elif by_name(it) is not None:
+                            verdict, why = False, src(by_name(it), 60)
+                elif isinstance(subj, ast.Subscript):
+                    tb = by_name(subj.value)
+                    if tb is not None:
+                        verdict, why = False, src(tb, 60)
+                if verdict is None:
+                    # a parameter of the function, a pattern node: one variable, matched where it stands - not this rule's subject
+                    continue
+                res.add('%s :: %s :: every-schematic-variable-matched(%s)' % (m.rel, f.qualname, src(c.func.value, 30)), verdict,
+                        'the loop runs over the schematic variables of the term' if verdict else
+                        'line %d matches the type of `%s`, which is read from `%s`: one schematic variable per name.  With ?x :: ?\'a and ?x :: ?\'b in one '
+                        'term only one annotation is matched while both occurrences are replaced: p (?x :: ?\'a) & q (?x :: ?\'b) with ?x := 0 :: nat is '
+                        'ill-typed afterwards' % (c.lineno, src(c.func.value, 30), why), '%s:%d' % (m.rel, c.lineno))
+    return res
+
 
 def rules(repo):
-    return [rule_i1(repo), rule_i2(repo), rule_i3(repo), rule_i4(repo), rule_i5(repo), rule_i6(repo), rule_i7(repo), rule_i8(repo), rule_i9(repo)]
+    return [rule_i1(repo), rule_i2(repo), rule_i3(repo), rule_i4(repo), rule_i5(repo), rule_i6(repo), rule_i7(repo), rule_i8(repo), rule_i9(repo), rule_i10(repo)]
